@@ -77,9 +77,10 @@ impl Exec {
     }
     /// Runs `f` with fault injection switched off (an auxiliary call that is not the subject of the run).
     pub fn quietly<T>(&mut self, f: impl FnOnce(&mut Exec) -> T) -> T {
-        simos::with_ctx(|c| c.io.quiet = true);
+        // nests: inside a sibling case (prelude), which is quiet as a whole, the previous state must come back
+        let was = simos::with_ctx(|c| std::mem::replace(&mut c.io.quiet, true)).unwrap_or(false);
         let r = f(self);
-        simos::with_ctx(|c| c.io.quiet = false);
+        simos::with_ctx(|c| c.io.quiet = was);
         r
     }
     /// Runs `f` - another case of the same property - ahead of the case proper, on the same thread and in the same
